@@ -110,6 +110,22 @@ class CoreSummaries:
     def s_release(self, I, recv, args, kwargs):
         return self._refs_effect(I, args, kwargs, -1)
 
+    def frame_clause(self, fields=None):
+        """All data fields keep their pre-state value."""
+        def fn(self_, I, o, fr):
+            pre = self.pre_state.heap[self.pre_args['self'].loc]
+            post = o.state.heap[self.pre_args['self'].loc]
+            fs = []
+            for f in (fields if fields is not None else self.data_fields):
+                fs.append(values_equal_across(I, self.pre_state, pre.fields[f], o.state, post.fields[f]))
+            return z3.And(fs) if fs else z3.BoolVal(True)
+        return fn
+
+    def same_exception_clause(self, cls):
+        def fn(self_, I, o, fr):
+            return z3.BoolVal(o.kind == 'raise' and o.value.cls == cls)
+        return fn
+
     held_text = None
 
     def own_pre(self, I):
